@@ -6,16 +6,33 @@ PROP = {'streams': [('c06', 6000, 500000)],
          'policies (every operator key, Value escapes, odd-but-accepted and rejected shapes); per policy: JSON via CST->EST and AST->EST, '
          'to_json/from_json, PST, protobuf, responses on 3 worlds, printed-text re-parse; model lines: (est to)=from_json, (est of)=to_json, (estpol '
          'to)=policy-level from_json; non-trivial = condition with >=4 subexpressions, every hand-built JSON policy, every set with links',
- 'theorems': ['est_roundtrip', 'est_policy_roundtrip', 'est_eval', 'pst_roundtrip_partial', 'proto_roundtrip_partial'],
+ 'theorems': ['est_roundtrip', 'est_policy_roundtrip', 'est_eval', 'pst_roundtrip_partial', 'proto_roundtrip_partial',
+              'pst_template_roundtrip', 'pst_template_encodable', 'pst_clauses_in_order', 'pst_policy_roundtrip', 'pst_link_roundtrip',
+              'proto_template_roundtrip', 'proto_link_roundtrip', 'proto_link_roundtrip_anyorder', 'proto_link_lookup',
+              'proto_policyset_roundtrip'],
  'assumptions': ["serde / serde_json (text <-> JSON value) and prost's byte encoding are not modelled: only their round trips are sampled",
-                 'PST and protobuf are modelled as message trees (structure-preserving maps), their Rust conversions are tied to the code only by '
-                 'the sampled round trips',
+                 'PST and protobuf are modelled as message trees (structure-preserving maps): expression level in Cedar/Est/Trees.lean, policy '
+                 'level (templates, scope constraints with slots, clauses, annotations, static/linked policies, link records, protobuf policy '
+                 'sets) in Lemmas/EstTreesPolicyDefs.lean, hand mirrors of pst/{policy,constraints,ast_conversions}.rs and proto/policy.rs; no '
+                 'model-vs-code stream reads the tree models, their Rust conversions are tied to the code only by the sampled round trips '
+                 '(harness checks (c), (d))',
+                 'in the tree models names are kept as the string they print as, maps (slot values, protobuf annotations) are association lists '
+                 '(the protobuf link round trip is exact for lists with ?principal first, and up to that order otherwise), messages with absent '
+                 'sub-messages or out-of-range enum numbers are not modelled; the api-level pst::PolicySet and the pst<->est conversions are not '
+                 'modelled',
                  'JSON numbers are integers; duplicate object members cannot be expressed through serde_json::Value and are not sampled']}
 
 TEXT = ('Lean theorems over a mirror of the JSON policy format (est/expr.rs, est.rs, scope_constraints.rs, entities/json/value.rs): est_roundtrip (toExpr '
  '(ofExpr e) = e for every well-formed expression), est_policy_roundtrip (policies/templates and link records), est_eval (an accepted JSON policy '
- 'evaluates as the expression it denotes), pst/proto round trips on message-tree models; the property itself (JSON via CST->EST and AST->EST, PST, '
- 'protobuf, policy sets with links, equal responses, printed-text re-parse) is checked on the implementation for generated text and hand-built JSON '
- 'policies, and the compiled model is compared with from_json/to_json by cross-composition.',
+ 'evaluates as the expression it denotes); over message-tree models of PST and protobuf: expression round trips (pst_roundtrip_partial, '
+ 'proto_roundtrip_partial) and the policy-level round trips, proved for both formats (FullStatementTreeRoundtrip: pst_template_roundtrip, '
+ 'proto_template_roundtrip: effect, scope constraints with slots, condition, annotations; pst_template_encodable: to_pst succeeds exactly when the '
+ 'condition has no wrong-arity/unknown extension call; pst_clauses_in_order: several when/unless clauses read back in order and alike from JSON and '
+ 'PST; pst_policy_roundtrip, pst_link_roundtrip: static/linked pst::Policy and TemplateLink; proto_link_roundtrip(_anyorder), proto_link_lookup: '
+ 'models::Policy link messages against the template map with check_binding and id-collision checks; proto_policyset_roundtrip: templates + links of '
+ 'a whole set), each hypothesis backed by a checked counterexample; the property itself (JSON via CST->EST and AST->EST, PST, protobuf, policy sets '
+ 'with links, equal responses, printed-text re-parse) is checked on the implementation for generated text and hand-built JSON policies, and the '
+ 'compiled JSON model is compared with from_json/to_json by cross-composition.',
  "proof over a hand-written model; prost's byte encoding and serde/serde_json are NOT modelled: only their round trip is sampled; PST/protobuf "
- 'theorems are about tree models')
+ 'theorems are about tree models (policy-level tree models have no model-vs-code stream; their round trips are sampled on the implementation); '
+ 'api-level pst::PolicySet and pst<->est conversions not modelled')
